@@ -172,6 +172,7 @@ func ruleWAddr(c *Ctx) {
 		}
 		n, okSlices, okLen := 0, true, true
 		detail := ""
+		okText, textDetail := true, ""
 		for _, d := range paths {
 			if d.EndKind != "return" || len(d.Ret.Results) != 2 {
 				continue
@@ -211,7 +212,39 @@ func ruleWAddr(c *Ctx) {
 			if !has {
 				okLen = false
 			}
+			// nothing else refuses an address the library itself derives: a condition that does not speak about the
+			// decoded payload speaks about the text, and may only be a length window that lets every length a
+			// 25-byte payload with a supported version byte can have (26..35 characters) through
+			for _, pc := range d.Conds {
+				a := atomName(pc.Cond)
+				if strings.Contains(a, "base58.Decode(p0)") {
+					continue
+				}
+				bt := map[string]*T{}
+				baseTerms(pc.Cond, bt)
+				onlyLen := len(bt) > 0
+				for k := range bt {
+					if k != "len(p0)" {
+						onlyLen = false
+					}
+				}
+				if !onlyLen {
+					okText = false
+					textDetail = "a condition on the text itself that the rule cannot evaluate: " + shorten(a, 80)
+					continue
+				}
+				for L := int64(26); L <= 35; L++ {
+					v, ok := evalTerm(pc.Cond, map[string]*big.Int{"len(p0)": big.NewInt(L)})
+					if !ok || (v.Sign() != 0) != pc.Truth {
+						okText = false
+						textDetail = fmt.Sprintf("an address of %d characters is refused by %s before it is decoded (25-byte payloads with version 0x00 / 0x6f have 26..35 characters)", L, shorten(a, 60))
+						break
+					}
+				}
+			}
 		}
+		c.Check(okText, "W-addr", "addressToPubKeyHashStr/text-conditions", fn.Pos(), "success depends on the decoded payload only (or on a text length window that lets 26..35 characters through)",
+			"the decoder refuses addresses the library derives: "+textDetail)
 		c.Check(n >= 1 && okSlices && okLen, "W-addr", "addressToPubKeyHashStr", fn.Pos(), "decoded payload must be 25 bytes; the hash is bytes 1..21",
 			fmt.Sprintf("the decoder no longer takes bytes 1..21 of a 25-byte payload as the hash (%d success paths, slices ok %v, length test %v) %s", n, okSlices, okLen, detail))
 	}
